@@ -12,3 +12,7 @@ def lin(a, k):
 
 def add2(a, b):
     return a + 3.0 * b
+
+
+def div2(a, b):
+    return b / a
